@@ -360,6 +360,13 @@ Proof.
 Qed.
 
 (* ---- utf8.len ---- *)
+Lemma posrelat_nonneg pos len : in_i64 pos -> 0 <= len -> 0 <= lua_u_posrelat pos len.
+Proof.
+  intros Hp Hl. unfold lua_u_posrelat, u64, two64, in_i64, minint, maxint, two63 in *.
+  destruct (Z.leb_spec 0 pos); [lia|].
+  destruct (Z.ltb_spec len ((0 - pos mod 18446744073709551616) mod 18446744073709551616)); lia.
+Qed.
+
 Lemma len_loop_ext d1 d2 : (forall b, d1 b = d2 b) ->
   forall f s i j n, len_loop d1 f s i j n = len_loop d2 f s i j n.
 Proof.
@@ -385,12 +392,7 @@ Proof.
   destruct (utf8relpos_eq_lua j (slen s) Hj ltac:(lia)) as [Hiffj Heqj].
   set (pi := lua_u_posrelat i (slen s)) in *. set (pj := lua_u_posrelat j (slen s)) in *.
   set (ni := nl_utf8relpos i (slen s)) in *. set (nj := nl_utf8relpos j (slen s)) in *.
-  assert (Hpj : 0 <= pj).
-  { subst pj. unfold lua_u_posrelat. destruct (0 <=? j) eqn:E; [lia|].
-    destruct (slen s <? (0 - u64 j) mod two64); [lia|]. 
-    destruct (Z.leb_spec 0 j); [discriminate|].
-    revert E. unfold u64, two64, in_i64, minint, maxint, two63 in *. intros _.
-    destruct (Z.ltb_spec (slen s) ((0 - j mod 18446744073709551616) mod 18446744073709551616)); lia. }
+  assert (Hpj : 0 <= pj) by (subst pj; apply posrelat_nonneg; [exact Hj|lia]).
   destruct (Z.leb_spec 1 pi) as [H1|H1]; cbn [andb negb].
   - apply Hiffi in H1. specialize (Heqi H1).
     destruct (Z.leb_spec 0 ni); [|lia]. cbn [andb].
@@ -398,36 +400,125 @@ Proof.
     destruct (Z.leb_spec 0 nj) as [Hnj|Hnj].
     + specialize (Heqj Hnj). rewrite <- Heqj.
       destruct (Z.ltb_spec nj (slen s)); cbn [negb]; [|reflexivity].
-      f_equal. apply len_loop_ext. intros b. symmetry. apply decode_eq_lua.
+      reflexivity.
     + assert (pj - 1 < 0) by (destruct (Z.le_gt_cases 1 pj) as [Hx|Hx]; [apply Hiffj in Hx; lia|lia]).
       destruct (Z.ltb_spec nj (slen s)); [|lia]. destruct (Z.ltb_spec (pj - 1) (slen s)); [|lia]. cbn [negb].
-      f_equal. rewrite (len_loop_ext _ _ (fun b => decode_eq_lua b strict)).
-      apply len_loop_empty; lia.
+      f_equal. apply (len_loop_empty (fun b => lua_utf8decode b strict)); lia.
   - assert (Hni : ni < 0) by (destruct (Z.le_gt_cases 0 ni) as [Hx|Hx]; [apply Hiffi in Hx; lia|lia]).
     destruct (Z.leb_spec 0 ni); [lia|]. reflexivity.
 Qed.
 
+
 (* ---- utf8.codes ---- *)
-(* one step of the iterator (after 6daceda): same position and code point, same end, same error *)
+Lemma dec_loop_count f : forall s c res count c' res' count',
+  dec_loop f s c res count = Dec c' res' count' -> count <= count'.
+Proof.
+  induction f as [|f IH]; intros s c res count c' res' count'; cbn [dec_loop]; [discriminate|].
+  destruct (Z.land c 64 =? 0); [intros [= <- <- <-]; lia|].
+  destruct (negb _); [discriminate|]. intros H. apply IH in H. lia.
+Qed.
+
+Lemma decode_adv_pos s strict c a : nl_utf8decode s strict = Some (c, a) -> 1 <= a.
+Proof.
+  unfold nl_utf8decode, utf8_decode_gen. cbn zeta.
+  destruct (nth 0 s 0 <? 128).
+  - destruct (strict && _); [discriminate|]. intros [= <- <-]. lia.
+  - destruct (dec_loop 9 s (nth 0 s 0) 0 0) as [c' res count| |] eqn:E; try discriminate.
+    apply dec_loop_count in E.
+    destruct (_ || _); [discriminate|]. destruct (strict && _); [discriminate|]. intros [= <- <-]. lia.
+Qed.
+
+Lemma rd_beyond s k : slen s <= k -> iscont (rd s k) = false.
+Proof.
+  intros H. unfold rd. rewrite nth_overflow by (unfold slen in H; lia). reflexivity.
+Qed.
+
+(* one step of the iterator (after 6daceda): same position and code point, same end, same error.
+   For the first step (i = 0) the subject must not start with a continuation byte: Lua's iter_codes has
+   already raised an error on such a subject, and the port's first step raises too (next lemma). *)
 Lemma codes_step_eq_lua s i strict : 0 <= i <= slen s -> slen s <= maxint ->
+  (i = 0 -> iscont (rd s 0) = false) ->
   nl_codes_step s i strict = lua_codes_step s i strict.
 Proof.
-  intros Hi Hs. unfold nl_codes_step, lua_codes_step.
+  intros Hi Hs H0. unfold nl_codes_step, lua_codes_step.
   rewrite (u64_small i) by (unfold maxint, two63, two64 in *; lia).
-  rewrite <- !decode_eq_lua.
-  destruct (Z.eq_dec i 0) as [->|Hne].
-  - (* first call: Lua would skip leading continuation bytes, but iter_codes has rejected them; on such a
-       subject both raise: the port's decoder fails on a continuation byte *)
-    cbn [Z.sub Z.ltb Z.compare]. change (0 - 1 <? 0) with true. cbn iota.
-    destruct (Z.ltb_spec 0 (slen s)) as [Hpos|Hz].
-    + (* non-empty *)
-      destruct (iscont (rd s 0)) eqn:Ec.
-      * (* leading continuation byte: out of the scope of the step (iter_codes raises before) *)
-        admit_leading_cont.
-      * assert (Hsk : skip_cont (S (length s)) s 0 = 0) by (cbn [skip_cont]; rewrite Ec; reflexivity).
-        rewrite Hsk. destruct (slen s <=? 0); [reflexivity|].
-        destruct (nl_utf8decode (skipn (Z.to_nat 0) s) strict) as [[code adv]|]; [|reflexivity].
-        admit_tail.
-    + destruct (Z.leb_spec (slen s) 0); [reflexivity|lia].
-  - admit_rest.
-Abort.
+  assert (Hn : (if i - 1 <? 0 then 0 else if i - 1 <? slen s then skip_cont (S (length s)) s (i - 1 + 1) else i - 1) =
+               (if i <? slen s then skip_cont (S (length s)) s i else i) \/
+               (i = slen s /\ 1 <= i)).
+  { destruct (Z.ltb_spec (i - 1) 0).
+    - assert (i = 0) by lia. subst i. left. destruct (Z.ltb_spec 0 (slen s)); [|reflexivity].
+      cbn [skip_cont]. rewrite (H0 eq_refl). reflexivity.
+    - destruct (Z.ltb_spec i (slen s)).
+      + destruct (Z.ltb_spec (i - 1) (slen s)); [|lia]. left. f_equal. lia.
+      + right. lia. }
+  destruct Hn as [-> | [Hlen Hpos]].
+  - set (n := if i <? slen s then skip_cont (S (length s)) s i else i).
+    destruct (slen s <=? n); [reflexivity|].
+    destruct (nl_utf8decode (skipn (Z.to_nat n) s) strict) as [[code adv]|] eqn:E;
+      change (lua_utf8decode (skipn (Z.to_nat n) s) strict) with (nl_utf8decode (skipn (Z.to_nat n) s) strict); rewrite E; [|reflexivity].
+    destruct (Z.leb_spec (slen s) (n + adv)); cbn [orb negb].
+    + rewrite rd_beyond by assumption. reflexivity.
+    + destruct (iscont (rd s (n + adv))); reflexivity.
+  - (* i = #s: nothing left, in both *)
+    destruct (Z.ltb_spec (i - 1) 0); [lia|]. destruct (Z.ltb_spec (i - 1) (slen s)); [|lia].
+    destruct (Z.ltb_spec i (slen s)); [lia|].
+    replace (i - 1 + 1) with i by lia.
+    assert (Hsk : skip_cont (S (length s)) s i = i).
+    { cbn [skip_cont]. rewrite rd_beyond by lia. reflexivity. }
+    rewrite Hsk. destruct (Z.leb_spec (slen s) i); [reflexivity|lia].
+Qed.
+
+(* a subject that starts with a continuation byte: the port's first step raises (Lua raises in utf8.codes itself) *)
+Definition cont_shape (c : Z) : bool := implb (Z.land c 192 =? 128) (negb (c <? 128) && (Z.land c 64 =? 0)).
+Lemma cont_shape_all : forallb cont_shape all_bytes = true.
+Proof. vm_compute. reflexivity. Qed.
+
+Lemma codes_first_cont s strict : 0 < slen s -> 0 <= rd s 0 < 256 -> iscont (rd s 0) = true ->
+  nl_codes_step s 0 strict = StepErr.
+Proof.
+  intros Hl Hb Hc. unfold nl_codes_step. change (0 - 1 <? 0) with true. cbn iota.
+  destruct (Z.leb_spec (slen s) 0); [lia|]. change (Z.to_nat 0) with 0%nat. cbn [skipn].
+  assert (E : nl_utf8decode s strict = None).
+  { unfold nl_utf8decode, utf8_decode_gen. cbn zeta. unfold rd, iscont in *. change (Z.to_nat 0) with 0%nat in *.
+    set (c := nth 0 s 0) in *.
+    pose proof (forall_bytes _ cont_shape_all c Hb) as Hs. unfold cont_shape in Hs. rewrite Hc in Hs. cbn [implb] in Hs.
+    apply andb_true_iff in Hs. destruct Hs as [E1 E2]. apply negb_true_iff in E1. apply Z.eqb_eq in E2.
+    rewrite E1. cbn [dec_loop]. rewrite E2. cbn [Z.eqb].
+    change (nth (Z.to_nat 0) NL_UTF8_LIMITS 0) with 4294967295.
+    rewrite land127. change (0 * 5) with 0. rewrite Z.shiftl_0_r.
+    assert (Hm : 0 <= c mod 128 < 128) by (apply Z.mod_pos_bound; lia).
+    unfold u32. rewrite (Z.mod_small (c mod 128)) by (unfold two32; lia). rewrite Z.lor_0_l.
+    destruct (5 <? 0); [reflexivity|]. cbn [orb].
+    destruct (NL_MAXUTF <? c mod 128); [reflexivity|]. cbn [orb].
+    destruct (Z.ltb_spec (c mod 128) 4294967295); [reflexivity|lia]. }
+  rewrite E. reflexivity.
+Qed.
+
+(* ---- utf8.offset ---- *)
+Lemma offset_core_guard s len p n : len = slen s -> 0 <= p <= len ->
+  offset_core true s len p n = offset_core false s len p n.
+Proof.
+  intros -> Hp. unfold offset_core. destruct (n =? 0); [reflexivity|].
+  destruct (Z.eqb_spec p (slen s)) as [->|]; [|reflexivity].
+  cbn [negb andb]. rewrite rd_beyond by lia. reflexivity.
+Qed.
+
+(* same position, same "no such character" (-1 for nil), a stop exactly where Lua raises *)
+Lemma utf8offset_eq_lua s n i : in_i64 i -> slen s <= maxint ->
+  match lua_utf8offset s n i with
+  | LVal (Some v) => nl_utf8offset s n i = Val v
+  | LVal None => nl_utf8offset s n i = Val (-1)
+  | LErr => nl_utf8offset s n i = Trap
+  end.
+Proof.
+  intros Hi Hs. pose proof (slen_nonneg s) as H0. unfold lua_utf8offset, nl_utf8offset.
+  destruct (utf8relpos_eq_lua i (slen s) Hi ltac:(lia)) as [Hiff Heq].
+  set (pi := lua_u_posrelat i (slen s)) in *. set (ni := nl_utf8relpos i (slen s)) in *.
+  destruct (Z.leb_spec 1 pi) as [H1|H1]; cbn [andb negb].
+  - apply Hiff in H1. specialize (Heq H1). destruct (Z.leb_spec 0 ni); [|lia]. cbn [andb]. rewrite <- Heq.
+    destruct (Z.leb_spec ni (slen s)); cbn [negb]; [|reflexivity].
+    rewrite offset_core_guard by (auto; lia).
+    destruct (offset_core false s (slen s) ni n) as [[v|]|]; reflexivity.
+  - assert (ni < 0) by (destruct (Z.le_gt_cases 0 ni) as [Hx|Hx]; [apply Hiff in Hx; lia|lia]).
+    destruct (Z.leb_spec 0 ni); [lia|]. reflexivity.
+Qed.
